@@ -16,7 +16,12 @@ def NoPastCallbacks (devs : DevSeq Val) : Prop :=
 theorem one_time_per_tick (w : Wiring) (dev : DevFn Val) (st st' : FlatSt Val) (t : SimTime)
     (roots : List Comp) (hrun : TickRun w dev st t roots st')
     (o : Comp × SimTime × List (Port × Val)) (ho : o ∈ st'.obs) (hn : o ∉ st.obs) : o.2.1 = t := by
-  sorry
+  obtain ⟨s, hs, _, rfl⟩ := hrun
+  rcases Det.mem_obs_afterTick ho with h | ⟨c, t', ins, hm, ht⟩
+  · exact absurd h hn
+  · have := ((within_extent w _ t roots s hs).2.1 _ hm).2
+    simp only [Dispatch.time] at this
+    rw [ht, this]
 
 /-- a tick is finished only when every member of its extent has answered, and each member
 was dispatched exactly once (serialisation: the next tick starts from the finished state). -/
@@ -24,20 +29,37 @@ theorem tick_complete (w : Wiring) (dev : DevFn Val) (st st' : FlatSt Val) (t : 
     (roots : List Comp) (s : TickSys Val)
     (hs : s.Reachable w (st.react dev t) t roots) (hf : s.tk.toUpdate = []) (c : Comp) (hc : c ∈ extent w roots) :
     (∃ ch, Ev.answer c ch ∈ s.trace) ∧ (s.trace.filter (Ev.isDispatchOf c)).length = 1 := by
-  sorry
+  have _ := st' -- not needed
+  have hi := hs.inv.pre
+  obtain ⟨ch, hch⟩ := (hi.resolved c hc).1 (by rw [hf]; rfl)
+  refine ⟨⟨ch, hch⟩, ?_⟩
+  have h1 := hi.count c
+  have h2 : 1 ≤ (s.trace.filter (Ev.isAnswerOf c)).length :=
+    List.length_pos_of_mem (List.mem_filter.2 ⟨hch, by simp [Ev.isAnswerOf]⟩)
+  omega
 
 /-- every pending wakeup is at or after the time of the last tick … -/
 theorem wake_not_before (w : Wiring) (devs : DevSeq Val) (hpast : NoPastCallbacks devs)
     (t0 : SimTime) (n : Nat) (st : FlatSt Val) (times : List SimTime)
     (hrun : FlatRun w devs t0 n st times) :
     ∃ tl rest, times = tl :: rest ∧ ∀ c t, alookup st.wake c = some t → tl ≤ t := by
-  sorry
+  exact Det.flatRun_wake_ge hpast hrun
 
 /-- … hence **successive tick times never decrease**. -/
 theorem time_monotone (w : Wiring) (devs : DevSeq Val) (hpast : NoPastCallbacks devs)
     (t0 : SimTime) (n : Nat) (st : FlatSt Val) (times : List SimTime)
     (hrun : FlatRun w devs t0 n st times) : times.Pairwise (fun later earlier => earlier ≤ later) := by
-  sorry
+  induction hrun with
+  | initial _ => simp
+  | @tick n st0 st1 times0 cs m hprev hf _ ih =>
+    obtain ⟨tl, rest, hti, hge⟩ := Det.flatRun_wake_ge hpast hprev
+    obtain ⟨_, _, ⟨c, hc⟩, _⟩ := firstWakeups_spec _ (Det.flatRun_uniqueKeys hprev) cs m hf
+    have htl : tl ≤ m := hge c m hc
+    subst hti
+    refine List.pairwise_cons.2 ⟨fun t' ht' => ?_, ih⟩
+    rcases List.mem_cons.1 ht' with rfl | ht'
+    · exact htl
+    · exact Int.le_trans ((List.pairwise_cons.1 ih).1 t' ht') htl
 
 /-- every tick time is the initial time or a callback requested by one of its roots (C06,
 "never invented", flat callbacks-only histories). -/
@@ -45,6 +67,11 @@ theorem tick_time_provenance (w : Wiring) (devs : DevSeq Val)
     (t0 : SimTime) (n : Nat) (st st' : FlatSt Val) (times : List SimTime) (cs : List Comp) (m : SimTime)
     (hrun : FlatRun w devs t0 n st times) (hf : firstWakeups st.wake = (cs, some m)) :
     cs ≠ [] ∧ ∀ c ∈ cs, alookup st.wake c = some m := by
-  sorry
+  have _ := st' -- not needed
+  obtain ⟨hcs, _, ⟨c, hc⟩, _⟩ := firstWakeups_spec _ (Det.flatRun_uniqueKeys hrun) cs m hf
+  refine ⟨fun hnil => ?_, fun c hc => (hcs c).1 hc⟩
+  have := (hcs c).2 hc
+  rw [hnil] at this
+  simp at this
 
 end Tickit
